@@ -41,3 +41,6 @@ mod scanner;
 pub use crate::input::{str::StrInput, BufferedInput, Input};
 pub use crate::parser::{Event, EventReceiver, Parser, SpannedEventReceiver, Tag};
 pub use crate::scanner::{Marker, ScalarStyle, ScanError, Span};
+// Verification hook: expose the token-level scanner to the out-of-tree correspondence harness.
+#[cfg(saphyr_verif)]
+pub use crate::scanner::{Scanner, TEncoding, Token, TokenType};
